@@ -3,7 +3,7 @@ PROP = {'engine': 'stack',
  'test': 'TestC08',
  'level': 'exploration',
  'quick': {'checks': 70, 'shards': 14, 'timeout': 1500},
- 'thorough': {'checks': 900, 'shards': 14, 'timeout': 3400},
+ 'thorough': {'checks': 2000, 'shards': 14, 'timeout': 3400},
  'rule': 'each case is three host runs. rapid draws a prefix of 1-3 generations from {healthy invocations with an extension set, init error reported '
          'by the runtime, runtime exit after next / after response / while idle, timeout before the response / during init, extension init error / '
          'exit error / stall, a different internal-extension population}, each ended by its own failure/timeout reset or an explicit reset, and a '
